@@ -15,6 +15,22 @@ import (
 	"sync/atomic"
 )
 
+// Everything else print.go may use from package sync is passed through unchanged.
+type (
+	Map       = sync.Map
+	Mutex     = sync.Mutex
+	RWMutex   = sync.RWMutex
+	Once      = sync.Once
+	WaitGroup = sync.WaitGroup
+	Cond      = sync.Cond
+	Locker    = sync.Locker
+)
+
+var (
+	NewCond  = sync.NewCond
+	OnceFunc = sync.OnceFunc
+)
+
 // Controller decides pool answers and receives scheduling points.
 type Controller interface {
 	// Choose is called with the number of pooled objects n (>=0) and returns
@@ -25,11 +41,11 @@ type Controller interface {
 }
 
 var (
-	ctl      atomic.Value // holds *ctlBox
-	Gets     int64
-	News     int64
-	Reuses   int64
-	Puts     int64
+	ctl    atomic.Value // holds *ctlBox
+	Gets   int64
+	News   int64
+	Reuses int64
+	Puts   int64
 )
 
 type ctlBox struct{ c Controller }
